@@ -9,6 +9,7 @@ mod panics;
 mod realnet;
 mod runner;
 mod wire;
+mod xmlcheck;
 mod models;
 mod props;
 mod util;
